@@ -24,7 +24,7 @@ BIN_DIR = os.path.join(FUZZ_DIR, "target", "x86_64-unknown-linux-gnu", "release"
 def build_targets(quiet=True):
     """cargo +nightly fuzz build; returns (ok, message). Never raises."""
     env = dict(os.environ, CARGO_NET_OFFLINE="true", CARGO_TERM_COLOR="never")
-    env.pop("RUSTFLAGS", None)
+    env["RUSTFLAGS"] = "--cfg fselect_verif"   # cargo-fuzz appends its own flags; enables the guarded hooks in /repo/src
     try:
         p = subprocess.run(["cargo", "+nightly", "fuzz", "build", "--fuzz-dir", FUZZ_DIR], cwd=FUZZ_DIR, env=env,
                            stdout=subprocess.PIPE, stderr=subprocess.STDOUT, timeout=1500)
@@ -35,7 +35,7 @@ def build_targets(quiet=True):
     return True, "built"
 
 
-def campaign(target, runs_per_proc, seed, procs=14, max_len=256, timeout_s=5):
+def campaign(target, runs_per_proc, seed, procs=14, max_len=256, timeout_s=5, seeds="seeds", dictionary="dict.txt"):
     """Run `procs` independent libFuzzer processes with fixed work. Returns dict with execs and artifacts (bytes)."""
     binary = os.path.join(BIN_DIR, target)
     if not os.path.exists(binary):
@@ -48,22 +48,25 @@ def campaign(target, runs_per_proc, seed, procs=14, max_len=256, timeout_s=5):
             art = os.path.join(work, "a%d" % i)
             os.makedirs(corpus)
             os.makedirs(art)
-            for f in glob.glob(os.path.join(FUZZ_DIR, "seeds", "*")):
+            for f in glob.glob(os.path.join(FUZZ_DIR, seeds, "*")):
                 shutil.copy(f, corpus)
             cmd = [binary, corpus, "-runs=%d" % runs_per_proc, "-seed=%d" % (seed * 1000 + i + 1), "-max_len=%d" % max_len,
-                   "-len_control=0", "-timeout=%d" % timeout_s, "-dict=" + os.path.join(FUZZ_DIR, "dict.txt"),
+                   "-len_control=0", "-timeout=%d" % timeout_s, "-dict=" + os.path.join(FUZZ_DIR, dictionary),
                    "-artifact_prefix=" + art + "/", "-print_final_stats=1", "-rss_limit_mb=2048"]
             env = dict(os.environ, ASAN_OPTIONS="detect_odr_violation=0:detect_leaks=0", RUST_BACKTRACE="0")
-            ps.append((subprocess.Popen(cmd, stdout=subprocess.DEVNULL, stderr=subprocess.PIPE, env=env, cwd=work), art))
+            ps.append((subprocess.Popen(cmd, stdout=subprocess.DEVNULL, stderr=open(os.path.join(work, "err%d" % i), "wb"), env=env, cwd=work), art, i))
         execs = 0
         artifacts = []
         crashed = 0
-        for p, art in ps:
+        for p, art, i in ps:
             try:
-                _, err = p.communicate(timeout=3600)
+                p.wait(timeout=3600)
             except subprocess.TimeoutExpired:
                 p.kill()
-                _, err = p.communicate()
+                p.wait()
+            with open(os.path.join(work, "err%d" % i), "rb") as fh:   # stderr goes to a file: rejections print a line each
+                fh.seek(max(0, os.path.getsize(fh.name) - 20000))
+                err = fh.read()
             m = re.search(rb"stat::number_of_executed_units:\s*(\d+)", err)
             if m:
                 execs += int(m.group(1))
